@@ -30,6 +30,16 @@ func (c *verifAChecker) Check(ctx context.Context, addr string) error {
 	return nil
 }
 
+// verifASched: the history harnesses do not vary the schedule of the per-host
+// check goroutines (one fixed schedule, no preemption); VerifActiveRunSchedules
+// does that for a single round.
+func verifASched() {
+	verif.Option("max_preempt", 0)
+	verif.Option("sched_fixed", 1)
+	verif.Option("max_threads", 64)
+	verif.Note("history harnesses run one fixed schedule of the check goroutines: outcomes are fixed before the round and all shared state is behind state's mutex")
+}
+
 // verifAGhost is the statement's hysteresis, per host.
 type verifAGhost struct {
 	present     bool // was in the previous list
@@ -70,8 +80,7 @@ func (g *verifAGhost) leave() { g.present = false }
 // list has at least two hosts; the single-host rule is a separate harness).
 // With rejoin == false host a never comes back after it left.
 func verifActiveHistory(rounds int, rejoin bool) {
-	verif.Option("max_preempt", 0)
-	verif.Note("schedules of the per-host check goroutines are not varied (max_preempt 0): all shared state is behind state's mutex and outcomes are fixed before the round")
+	verifASched()
 	fails := verif.Choice("fails", 3) + 1
 	passes := verif.Choice("passes", 3) + 1
 	ck := &verifAChecker{fail: map[string]bool{}, seen: map[string]int{}}
@@ -138,7 +147,7 @@ func VerifActiveFindingRejoin() {
 // VerifActiveSingleHost: whatever happened before, a list with a single host
 // reports that host healthy.
 func VerifActiveSingleHost() {
-	verif.Option("max_preempt", 0)
+	verifASched()
 	fails := verif.Choice("fails", 3) + 1
 	passes := verif.Choice("passes", 3) + 1
 	ck := &verifAChecker{fail: map[string]bool{}, seen: map[string]int{}}
